@@ -613,3 +613,212 @@ _jobs_real = jobs
 
 def jobs(tier):
     return _jobs_real(tier) + [(h_unknown_integer, (k,), 900) for k in ((0, 3) if tier == 'quick' else (0, 1, 2, 3, 5))]
+
+
+# ------------------------------------------------------------------------------------------------ incompatible values form a union: one value appended to a UnionBuilder
+UNB = 'src/libawkward/builder/UnionBuilder.cpp'
+BOB = 'src/libawkward/builder/BoolBuilder.cpp'
+LEAF = {'int': ('N7awkward12Int64BuilderE', I64B, ('i', 64)), 'float': ('N7awkward14Float64BuilderE', F64B, ('f', 64)), 'bool': ('N7awkward11BoolBuilderE', BOB, ('i', 8))}
+
+
+def _leaf_builder(m, name, kind, length, reserved, mod_cache={}):
+    """a real Int64Builder / Float64Builder / BoolBuilder object holding `length` symbolic entries"""
+    cls, src, ek = LEAF[kind]
+    mod = module_of(src)
+    st0 = State({}, m.mem, z3.BoolVal(True))
+    vt = m.eng.global_ptr(st0, '@_ZTV' + cls, mod)
+    buf = m.array(name + '_buf', ek, reserved)
+    # {vptr, weak_this(16), options_(16), buffer_{options(16), ptr_(16), length_, reserved_}}
+    m.record(name + '_ctrl', {0: (NULL, 8), 8: (z3.BitVecVal(1, 32), 4), 12: (z3.BitVecVal(1, 32), 4)})
+    cells = {0: (Ptr(vt.obj, 16), 8), 8: (Ptr(name, 0), 8), 16: (Ptr(name + '_ctrl', 0), 8), 24: (BV(8), 8), 32: (z3.FPVal(1.5, z3.Float64()), 8),
+             40: (BV(8), 8), 48: (z3.FPVal(1.5, z3.Float64()), 8), 56: (buf, 8), 64: (NULL, 8), 72: (BV(length), 8), 80: (BV(reserved), 8)}
+    m.record(name, cells)
+    esort = z3.Float64() if ek[0] == 'f' else z3.BitVecSort(ek[1])
+    return Ptr(name, 0), z3.Array(name + '_buf', z3.BitVecSort(64), esort)
+
+
+@guard
+def h_union_step(kinds, lens, what):
+    """UnionBuilder::integer / real (no member active) over real leaf builders: the value goes to the first member builder of its own type -
+    for a real number, failing that, to the first integer builder, which is replaced by a float builder holding its integers converted in order;
+    failing that a new member is appended - and the union records (tag = that member's position, index = the number of entries it held before);
+    the other members, and all earlier tags / index entries, are untouched"""
+    from .cpp01 import struct_of
+    kinds, lens = tuple(kinds), tuple(lens)
+    mod = module_of(UNB)
+    sym = {'integer': '_ZN7awkward12UnionBuilder7integerEl', 'real': '_ZN7awkward12UnionBuilder4realEd'}[what]
+    fo, sz, al, fields = mod.types.struct_layout(struct_of(mod, sym))
+    m = MCtx([UNB, I64B, F64B, BOB, GB, 'src/libawkward/builder/ArrayBuilderOptions.cpp', 'src/libawkward/kernel-dispatch.cpp'], unwind=max(lens + (0,)) + len(kinds) + 12, stubs=dict(COMMON_STUBS))
+    ntags = m.bv('ntags')
+    m.assume(ntags >= 0, ntags <= 2 ** 20)
+    x = m.bv('x') if what == 'integer' else m.fp('x')
+    kids, arrs = [], []
+    for i, (k, L) in enumerate(zip(kinds, lens)):
+        p, a = _leaf_builder(m, 'kid%d' % i, k, L, L + 2)
+        kids.append(p); arrs.append(a)
+    cells = {}
+    for i, p in enumerate(kids):
+        cells[16 * i] = (p, 8); cells[16 * i + 8] = (NULL, 8)
+    cells[16 * len(kids)] = (NULL, 8); cells[16 * len(kids) + 8] = (NULL, 8)          # spare capacity for one push_back
+    m.record('kidsbuf', cells)
+    nb = 16 * len(kids)
+    st0 = State({}, m.mem, z3.BoolVal(True))
+    vt = m.eng.global_ptr(st0, '@_ZTVN7awkward12UnionBuilderE', mod)
+    tg = m.array('tags', ('i', 8), ntags + 2)
+    ix = m.array('index', ('i', 64), ntags + 2)
+    t0, i0 = z3.Array('tags', z3.BitVecSort(64), z3.BitVecSort(8)), z3.Array('index', z3.BitVecSort(64), z3.BitVecSort(64))
+    m.record('ub_ctrl', {0: (NULL, 8), 8: (z3.BitVecVal(1, 32), 4), 12: (z3.BitVecVal(1, 32), 4)})
+    ub = {0: (Ptr(vt.obj, 16), 8), 8: (Ptr('ub', 0), 8), 16: (Ptr('ub_ctrl', 0), 8), fo[1]: (BV(8), 8), fo[1] + 8: (z3.FPVal(1.5, z3.Float64()), 8)}
+    for base, buf in ((fo[2], tg), (fo[3], ix)):
+        ub.update({base: (BV(8), 8), base + 8: (z3.FPVal(1.5, z3.Float64()), 8), base + 16: (buf, 8), base + 24: (NULL, 8), base + 32: (ntags, 8), base + 40: (ntags + 2, 8)})
+    ub.update({fo[4]: (Ptr('kidsbuf', 0) if kids else NULL, 8), fo[4] + 8: (Ptr('kidsbuf', nb) if kids else NULL, 8), fo[4] + 16: (Ptr('kidsbuf', nb + 16) if kids else NULL, 8), fo[5]: (z3.BitVecVal(-1, 8), 1)})
+    this = m.record('ub', ub)
+    m.record('ret', {})
+    out = m.call(sym, [Ptr('ret', 0), this, x])
+    obls = [('the step does not raise', out.raised)]
+    want_kind = 'int' if what == 'integer' else 'float'
+    if want_kind in kinds:
+        target, conv = kinds.index(want_kind), False
+    elif what == 'real' and 'int' in kinds:
+        target, conv = kinds.index('int'), True
+    else:
+        target, conv = len(kinds), False
+    oldlen = lens[target] if target < len(kinds) else 0
+    t1, i1 = out.mem.o['tags'].arr, out.mem.o['index'].arr
+    j = z3.BitVec('j!pos', 64)
+    o_ub = out.mem.o['ub']
+    obls += [('tags and index grow by one entry', z3.Or(o_ub.cells[fo[2] + 32][0] != ntags + 1, o_ub.cells[fo[3] + 32][0] != ntags + 1)),
+             ('earlier tags / index entries are untouched', z3.And(j >= 0, j < ntags, z3.Or(z3.Select(t1, j) != z3.Select(t0, j), z3.Select(i1, j) != z3.Select(i0, j)))),
+             ('the new tag is the position of the member that took the value (%d)' % target, z3.Select(t1, ntags) != target),
+             ('the new index entry is the number of entries that member held (%d)' % oldlen, z3.Select(i1, ntags) != oldlen)]
+    # the members afterwards
+    vb, ve = o_ub.cells[fo[4]][0], o_ub.cells[fo[4] + 8][0]
+    bcs = [(g, q) for g, q in ptr_cases(vb) if q.obj is not None]
+    ecs = [(g, q) for g, q in ptr_cases(ve) if q.obj is not None]
+    if len(bcs) != 1 or len(ecs) != 1 or bcs[0][1].obj != ecs[0][1].obj:
+        raise Unsupported('member vector is not a single buffer after the step')
+    vbuf, b0, e0 = out.mem.o[bcs[0][1].obj], bcs[0][1].off, ecs[0][1].off
+    nmem = (e0 - b0) // 16
+    obls.append(('the union has %d members afterwards' % max(len(kinds), target + 1), z3.BoolVal(nmem != max(len(kinds), target + 1))))
+
+    def member(i):
+        p = vbuf.cells[b0 + 16 * i][0]
+        cs = [(g, q) for g, q in ptr_cases(p) if q.obj is not None]
+        if len(cs) != 1:
+            raise Unsupported('member pointer has %d cases' % len(cs))
+        o, base = out.mem.o[cs[0][1].obj], cs[0][1].off
+        vp = o.cells[base][0]
+        cls = str([q.obj for g, q in ptr_cases(vp) if q.obj is not None][0])
+        bp, ln = o.cells[base + 56][0], o.cells[base + 72][0]
+        dcs = [(g, q) for g, q in ptr_cases(bp) if q.obj is not None]
+
+        def ent(k):
+            v = None
+            for g, q in dcs:
+                e = z3.Select(out.mem.o[q.obj].arr, z3.simplify(q.off + k))
+                v = e if v is None else z3.If(g, e, v)
+            return v
+        return cs[0][1].obj, cls, ent, ln
+    for i in range(min(nmem, len(kinds))):
+        if i == target:
+            continue
+        nm, cls, ent, ln = member(i)
+        obls.append(('member %d is left alone' % i, z3.Or(z3.BoolVal(nm != 'kid%d' % i), ln != lens[i])))
+    if target < nmem:
+        nm, cls, ent, ln = member(target)
+        tcls = LEAF[want_kind][0]
+        obls.append(('the member that took the value is a %s builder' % want_kind, z3.BoolVal(tcls not in cls)))
+        obls.append(('it holds one more entry', ln != oldlen + 1))
+        if tcls in cls:
+            for k in range(oldlen):
+                old = z3.Select(arrs[target], BV(k))
+                if conv:
+                    obls.append(('its entry %d is the integer converted to double' % k, z3.fpToIEEEBV(ent(k)) != z3.fpToIEEEBV(z3.fpSignedToFP(z3.RNE(), old, z3.Float64()))))
+                elif want_kind == 'float':
+                    obls.append(('its entry %d is unchanged' % k, z3.And(z3.Not(z3.fpIsNaN(old)), z3.fpToIEEEBV(ent(k)) != z3.fpToIEEEBV(old))))
+                else:
+                    obls.append(('its entry %d is unchanged' % k, ent(k) != old))
+            last = ent(oldlen)
+            obls.append(('its last entry is the appended value', (z3.And(z3.Not(z3.fpIsNaN(x)), z3.fpToIEEEBV(last) != z3.fpToIEEEBV(x))) if what == 'real' else (last != x)))
+
+    def replay(model, ent_):
+        import subprocess, os
+        ev = lambda t: model.eval(t, model_completion=True)
+        nt = ev(ntags).as_signed_long()
+        if nt > 64:
+            return False, 'too many earlier union entries to replay', {}
+        vals = []
+        for i, (k, L) in enumerate(zip(kinds, lens)):
+            for kk in range(L):
+                e = z3.Select(arrs[i], BV(kk))
+                vals.append(str(ev(z3.fpToIEEEBV(e) if k == 'float' else e).as_long()))
+        xb = ev(z3.fpToIEEEBV(x) if what == 'real' else x).as_long()
+        if what == 'real' and z3.is_true(ev(z3.fpIsNaN(x))):
+            xb = 0x7ff8000000000000
+        drv = NATIVE_PREFIX.replace('#include "awkward/builder/GrowableBuffer.h"', '#include "awkward/builder/GrowableBuffer.h"\n#include "awkward/builder/Int64Builder.h"\n#include "awkward/builder/Float64Builder.h"\n#include "awkward/builder/BoolBuilder.h"\n#include "awkward/builder/UnionBuilder.h"') + r'''
+int main(int argc, char** argv) {
+  // argv: what nt xbits nk (kind len)* values...
+  std::string what = argv[1]; int nt = atoi(argv[2]); unsigned long long xb = strtoull(argv[3], nullptr, 10); int nk = atoi(argv[4]);
+  ArrayBuilderOptions opts(8, 1.5);
+  std::vector<BuilderPtr> kids; std::vector<std::string> kinds; std::vector<int> lens; std::vector<std::vector<unsigned long long>> raw;
+  int a = 5;
+  for (int i = 0; i < nk; i++) { kinds.push_back(argv[a]); lens.push_back(atoi(argv[a + 1])); a += 2; }
+  for (int i = 0; i < nk; i++) {
+    BuilderPtr b = kinds[i] == "int" ? Int64Builder::fromempty(opts) : kinds[i] == "float" ? Float64Builder::fromempty(opts) : BoolBuilder::fromempty(opts);
+    raw.push_back({});
+    for (int k = 0; k < lens[i]; k++) { unsigned long long v = strtoull(argv[a++], nullptr, 10); raw[i].push_back(v);
+      if (kinds[i] == "int") b->integer((int64_t)v); else if (kinds[i] == "float") { double d; memcpy(&d, &v, 8); b->real(d); } else b->boolean(v != 0); }
+    kids.push_back(b);
+  }
+  GrowableBuffer<int8_t> tags(opts); GrowableBuffer<int64_t> index(opts);
+  for (int i = 0; i < nt; i++) { tags.append((int8_t)(i % 3)); index.append(100 + i); }
+  std::shared_ptr<UnionBuilder> u = std::make_shared<UnionBuilder>(opts, tags, index, kids);
+  std::vector<Builder*> before; for (auto k : kids) before.push_back(k.get());
+  if (what == "integer") u->integer((int64_t)xb); else { double d; memcpy(&d, &xb, 8); u->real(d); }
+  int target = atoi(argv[a]); int conv = atoi(argv[a + 1]); int oldlen = atoi(argv[a + 2]);
+  int bad = 0;
+  if (u->tags_.length() != nt + 1 || u->index_.length() != nt + 1) bad |= 1;
+  for (int i = 0; i < nt; i++) if (u->tags_.ptr().get()[i] != (int8_t)(i % 3) || u->index_.ptr().get()[i] != 100 + i) bad |= 2;
+  if (u->tags_.ptr().get()[nt] != target) bad |= 4;
+  if (u->index_.ptr().get()[nt] != oldlen) bad |= 8;
+  if ((int)u->contents_.size() != (target < nk ? nk : nk + 1)) bad |= 16;
+  for (int i = 0; i < nk && i < (int)u->contents_.size(); i++) if (i != target && (u->contents_[i].get() != before[i] || u->contents_[i]->length() != lens[i])) bad |= 32;
+  if (target < (int)u->contents_.size()) {
+    Builder* t = u->contents_[target].get();
+    if (t->length() != oldlen + 1) bad |= 64;
+    if (what == "integer") { Int64Builder* ib = dynamic_cast<Int64Builder*>(t); if (!ib) bad |= 128; else { for (int k = 0; k < oldlen; k++) if ((unsigned long long)ib->buffer_.ptr().get()[k] != raw[target][k]) bad |= 256; if (ib->buffer_.ptr().get()[oldlen] != (int64_t)xb) bad |= 512; } }
+    else { Float64Builder* fb = dynamic_cast<Float64Builder*>(t); if (!fb) bad |= 128; else {
+        for (int k = 0; k < oldlen; k++) { double want; if (conv) want = (double)(int64_t)raw[target][k]; else memcpy(&want, &raw[target][k], 8); double got = fb->buffer_.ptr().get()[k]; if (memcmp(&got, &want, 8) != 0 && want == want) bad |= 256; }
+        double d; memcpy(&d, &xb, 8); double got = fb->buffer_.ptr().get()[oldlen]; if (memcmp(&got, &d, 8) != 0 && d == d) bad |= 512; } }
+  }
+  printf("bad=%d\n", bad);
+  return bad ? 1 : 0;
+}
+'''
+        try:
+            exe = fullnative_link(drv)
+        except Exception as e:      # noqa
+            return False, 'replay driver did not build: %s' % str(e)[-600:], {}
+        argv = [what, str(nt), str(xb), str(len(kinds))]
+        for k, L in zip(kinds, lens):
+            argv += [k, str(L)]
+        argv += vals + [str(target), str(int(conv)), str(oldlen)]
+        r = subprocess.run([exe] + argv, capture_output=True, text=True, timeout=30,
+                           env=dict(os.environ, ASAN_OPTIONS='detect_leaks=0', UBSAN_OPTIONS='halt_on_error=1:exitcode=87'), errors='replace')
+        payload = dict(args=argv, native=r.stdout.strip())
+        if r.returncode != 0:
+            return True, 'UnionBuilder::%s over members %s %s: native builders give %s %s (4 tag, 8 index, 16 member count, 32 other member touched, 64.. target member)' % (
+                what, list(kinds), list(lens), r.stdout.strip(), r.stderr[-200:] if not r.stdout.strip() else ''), payload
+        return False, 'native builders agree (%s)' % r.stdout.strip(), payload
+    return mdischarge(m, 'UnionBuilder::%s over members %s with %s entries' % (what, list(kinds), list(lens)), obls, [], replay=replay, prefer=[ntags <= 4],
+                      extra=dict(bounds='member kinds and their lengths concrete (case split), member values, the appended value and the number of earlier union entries (<= 2^20) symbolic'))
+
+
+_jobs_unknown = jobs
+
+
+def jobs(tier):
+    q = [(('bool', 'int'), (1, 2), 'integer'), (('bool',), (1,), 'integer'), (('int', 'bool'), (2, 1), 'real'), (('bool', 'float'), (0, 1), 'real'), ((), (), 'real')]
+    if tier != 'quick':
+        q += [(('float', 'int'), (1, 1), 'integer'), (('float', 'int'), (1, 1), 'real'), (('bool', 'int', 'int'), (0, 3, 1), 'real'), (('int',), (0,), 'integer'), ((), (), 'integer')]
+    return _jobs_unknown(tier) + [(h_union_step, a, 1800) for a in q]
